@@ -3,3 +3,4 @@ pub fn c03(_g: &mut Gen) { panic!("harness: generator c03 not built yet"); }
 pub fn c11(_g: &mut Gen) { panic!("harness: generator c11 not built yet"); }
 pub fn c09_rl(_g: &mut Gen) {}
 pub fn c10_rl(_g: &mut Gen) {}
+pub fn c16_rl(_g: &mut Gen) {}
